@@ -101,16 +101,35 @@ CONTRACTS = [
 
 
 def _no_id_keys(world=None):
-    """no call of id() in the rendering modules: an id() key outlives its object"""
+    """no id() value is used as a key in the rendering modules (an id() key outlives its object): flagged are id()
+    calls inside a subscript, as argument of .get/.setdefault/.pop, in an `in` test, or assigned to a name that is
+    later used in one of these positions in the same function; other uses of id() (logging, repr) are fine"""
     root = os.path.dirname(ppobj.__file__)
     bad = []
+
+    def is_id_call(n):
+        return isinstance(n, ast.Call) and isinstance(n.func, ast.Name) and n.func.id == 'id'
+
+    def key_positions(fn_node):
+        for n in ast.walk(fn_node):
+            if isinstance(n, ast.Subscript):
+                yield n.slice
+            elif isinstance(n, ast.Call) and isinstance(n.func, ast.Attribute) and n.func.attr in ('get', 'setdefault', 'pop') \
+                    and n.args:
+                yield n.args[0]
+            elif isinstance(n, ast.Compare) and any(isinstance(o, (ast.In, ast.NotIn)) for o in n.ops):
+                yield n.left
     for fn in ('color.py', 'ppobj.py', 'hdoc.py', 'ghist.py', 'mcaller.py'):
         with open(os.path.join(root, fn), encoding='utf-8') as f:
             tree = ast.parse(f.read())
-        for n in ast.walk(tree):
-            if isinstance(n, ast.Call) and isinstance(n.func, ast.Name) and n.func.id == 'id':
-                bad.append((fn, n.lineno, ast.unparse(n)))
-    return not bad, {'id_calls': bad}
+        for fdef in [n for n in ast.walk(tree) if isinstance(n, (ast.FunctionDef, ast.Lambda))]:
+            id_names = {t.id for n in ast.walk(fdef) if isinstance(n, ast.Assign) and is_id_call(n.value)
+                        for t in n.targets if isinstance(t, ast.Name)}
+            for k in key_positions(fdef):
+                for sub in ast.walk(k):
+                    if is_id_call(sub) or (isinstance(sub, ast.Name) and sub.id in id_names):
+                        bad.append((fn, getattr(sub, 'lineno', 0), ast.unparse(k)))
+    return not bad, {'id_used_as_key': sorted(set(bad))}
 
 
 STATIC_OBLIGATIONS = {'C10.caches.no_id_keyed_cache': (_no_id_keys, 'top')}
